@@ -29,7 +29,26 @@ Definition F_prql : ftab := {|
   cbl := fun u => nth u GenCodegen.fmt_can_bind_left false;
   sym_bin := fun o => sym_index (nth o GenCodegen.bin_text []);
   sym_un := fun u => sym_index (nth u GenCodegen.un_text []);
+  alias_ctx := GenCodegen.fmt_alias_ctx;
+  noalias_ctx := GenCodegen.fmt_noalias_ctx;
+  case_ctx := GenCodegen.fmt_case_ctx;
 |}.
+
+(* Positions whose expressions are outside the expression model (lambdas, annotations), as a finite obligation on the
+   regenerated numbers: the context strength forced there parenthesises what the parser does not accept bare.
+     lambda body, case branch (parser: func_call):  a call stays bare, a lambda gets parentheses;
+     default value of a lambda parameter, annotation expression (parser: expr / plain term): calls, lambdas and
+     aliased expressions get parentheses;
+   and nothing an operator can contain is weaker than a lambda. *)
+Definition position_tables_ok : bool :=
+  (GenCodegen.fmt_func_strength <? GenCodegen.fmt_lambda_body_ctx) && (GenCodegen.fmt_lambda_body_ctx <=? GenCodegen.fmt_call_strength) &&
+  (GenCodegen.fmt_func_strength <? GenCodegen.fmt_case_ctx) && (GenCodegen.fmt_case_ctx <=? GenCodegen.fmt_call_strength) &&
+  (GenCodegen.fmt_call_strength <? GenCodegen.fmt_lambda_default_ctx) && (GenCodegen.fmt_alias_ctx <? GenCodegen.fmt_lambda_default_ctx) &&
+  (GenCodegen.fmt_call_strength <? GenCodegen.fmt_annotation_ctx) && (GenCodegen.fmt_alias_ctx <? GenCodegen.fmt_annotation_ctx) &&
+  (GenCodegen.fmt_func_strength <? GenCodegen.fmt_call_strength) &&
+  forallb (fun s => GenCodegen.fmt_lambda_default_ctx <=? s) GenCodegen.fmt_bin_strength &&
+  (GenCodegen.fmt_lambda_default_ctx <=? GenCodegen.fmt_unary_strength) && (GenCodegen.fmt_lambda_default_ctx <=? GenCodegen.fmt_range_strength) &&
+  (0 <? GenCodegen.fmt_func_strength).
 
 Fixpoint lookup_sym (s : str) (l : list (str * nat)) : option nat :=
   match l with
